@@ -131,6 +131,7 @@ package p9
 //@ define sameFids(cs *connState) bool = forall(k, fid, has(cs.fids, k) == old(has(cs.fids, k)) && cs.fids[k] == old(cs.fids[k]))
 //@ define isErr(m message, no linux.Errno) bool = typeis(m, *rlerror) && unbox(m, *rlerror).Error == uint32(no)
 //@ define nocalls() bool = ncalls() == old(ncalls())
+//@ define sameTags(cs *connState) bool = cs.tags == old(cs.tags) && forall(k, tag, has(cs.tags, k) == old(has(cs.tags, k)) && cs.tags[k] == old(cs.tags[k]))
 //@ define isEOF(e error) bool = errorsIs(e, io.EOF)
 // every name registered in the path tree is a safe path component
 //@ define InamesSafe() bool = forall(pn, *pathNode, forall(r, *fidRef, has(pn.childRefNames, r) ==> safe(pn.childRefNames[r])))
@@ -141,6 +142,7 @@ package p9
 //@   requires[C04] newRef != nil && newRef.server == cs.server
 //@   requires[C04] Ifid(cs)
 //@   ensures[C04] Ifid(cs)
+//@   panic_ensures[C04,C15] Ifid(cs)
 //@   requires[C09] InamesSafe()
 //@   ensures[C09] InamesSafe()
 //@   panic_ensures[C09] InamesSafe()
@@ -406,6 +408,12 @@ package p9
 //@   ensures[C09] @names-stay-safe InamesSafe()
 //@   requires[C04] Ifid(cs)
 //@   modifies *
+//@   ensures[C06,C14] @active-tags-untouched sameTags(cs)
+//@   panic_ensures[C06,C14,C15] @active-tags-untouched-on-panic sameTags(cs)
+//@   panic_ensures[C04,C15] @table-invariant-on-panic Ifid(cs)
+//@   panic_ensures[C07,C08,C15,C16] @tree-nodes-invariant-on-panic Inodes()
+//@   panic_ensures[C07,C08,C15] @refs-invariant-on-panic Irefs()
+//@   panic_ensures[C09,C15] @names-stay-safe-on-panic InamesSafe()
 //@   ensures[C05,C15] @references-balanced sameOwed()
 //@   ensures[C05,C15] @no-file-leaked sameOwn()
 //@   ensures[C15] @locks-released nolocks()
@@ -857,3 +865,151 @@ package p9
 //@   use handlerBase dirOpRows
 //@   ensures[C06] @reply-type typeis(result, *rumknod) || typeis(result, *rlerror)
 //@   at (*tmknod).do requires[C03] @forwards-uid arg1 == old(t.UID)
+
+// =============================================================================
+// Server core: one reply per request (C06), flush ordering (C14), fault
+// containment (C15)
+// =============================================================================
+
+// Every request handler (33 implementations) is verified against this
+// contract as well as against its own (behavioural subtyping).
+//@ interface handler.handle
+//@   impls
+//@   use handlerBase
+//@   ensures[C06,C15] @replies result != nil
+//@   ensures[C06] @reply-type-matches typeis(result, *rlerror) || replyFor(recv, result)
+//@   maypanic
+
+// R-type for each T-type (protocol numbering R = T + 1)
+//@ define replyFor(t message, r message) bool = (typeis(t, *tversion) && typeis(r, *rversion)) || (typeis(t, *tflush) && typeis(r, *rflush)) || (typeis(t, *twalk) && typeis(r, *rwalk)) || (typeis(t, *tclunk) && typeis(r, *rclunk)) || (typeis(t, *tremove) && typeis(r, *rremove)) || (typeis(t, *tattach) && typeis(r, *rattach)) || (typeis(t, *tlopen) && typeis(r, *rlopen)) || (typeis(t, *tlcreate) && typeis(r, *rlcreate)) || (typeis(t, *tsymlink) && typeis(r, *rsymlink)) || (typeis(t, *tlink) && typeis(r, *rlink)) || (typeis(t, *trenameat) && typeis(r, *rrenameat)) || (typeis(t, *tunlinkat) && typeis(r, *runlinkat)) || (typeis(t, *trename) && typeis(r, *rrename)) || (typeis(t, *treadlink) && typeis(r, *rreadlink)) || (typeis(t, *tread) && typeis(r, *rreadServerPayloader)) || (typeis(t, *twrite) && typeis(r, *rwrite)) || (typeis(t, *tmknod) && typeis(r, *rmknod)) || (typeis(t, *tmkdir) && typeis(r, *rmkdir)) || (typeis(t, *tgetattr) && typeis(r, *rgetattr)) || (typeis(t, *tsetattr) && typeis(r, *rsetattr)) || (typeis(t, *txattrwalk) && typeis(r, *rxattrwalk)) || (typeis(t, *txattrcreate) && typeis(r, *rxattrcreate)) || (typeis(t, *treaddir) && typeis(r, *rreaddir)) || (typeis(t, *tfsync) && typeis(r, *rfsync)) || (typeis(t, *tstatfs) && typeis(r, *rstatfs)) || (typeis(t, *tlock) && typeis(r, *rlock)) || (typeis(t, *twalkgetattr) && typeis(r, *rwalkgetattr)) || (typeis(t, *tucreate) && typeis(r, *rucreate)) || (typeis(t, *tumkdir) && typeis(r, *rumkdir)) || (typeis(t, *tusymlink) && typeis(r, *rusymlink)) || (typeis(t, *tumknod) && typeis(r, *rumknod))
+
+//@ func (*connState).handle
+//@   use handlerBase
+//@   ensures[C06,C15] @always-a-reply result != nil
+//@   ensures[C06] @reply-type-matches typeis(result, *rlerror) || replyFor(m, result)
+//@   ensures[C15] @panic-becomes-efault ghost("$didpanic", bool) ==> isErr(result, linux.EFAULT)
+//@   ensures[C04,C06] @non-request-enosys !ishandler(m) ==> isErr(result, linux.ENOSYS) && nocalls()
+//@   nopanic
+
+// ---- tags (C06, C14) ---------------------------------------------------------------
+//@ func (*connState).StartTag
+//@   requires[C15,C16] held(cs.tagMu) == 0
+//@   modifies mapof(cs.tags)
+//@   ensures[C06,C14] @refuses-active-tag result == !old(has(cs.tags, t))
+//@   ensures[C06,C14] @registers result ==> has(cs.tags, t) && cs.tags[t] != nil
+//@   ensures[C06,C14] @others-unchanged forall(k, tag, k != t ==> has(cs.tags, k) == old(has(cs.tags, k)) && cs.tags[k] == old(cs.tags[k]))
+//@   ensures[C06,C14] !result ==> has(cs.tags, t) && cs.tags[t] == old(cs.tags[t])
+//@   nopanic
+//@ func (*connState).ClearTag
+//@   requires[C15,C16] held(cs.tagMu) == 0
+//@   requires[C06,C14] @tag-active has(cs.tags, t)
+//@   modifies mapof(cs.tags), $closed, $close
+//@   ensures[C06,C14] @unregisters !has(cs.tags, t)
+//@   ensures[C14] @closes-its-channel closed(old(cs.tags[t]))
+//@   ensures[C06,C14] @others-unchanged forall(k, tag, k != t ==> has(cs.tags, k) == old(has(cs.tags, k)) && cs.tags[k] == old(cs.tags[k]))
+//@   nopanic
+// WaitTag returns at once for an idle tag, otherwise only after a receive on
+// the tag's channel, which is only ever closed (by ClearTag). Waiting for the
+// tag of the request that is doing the waiting can never return.
+//@ func (*connState).WaitTag
+//@   requires[C15,C16] held(cs.tagMu) == 0
+//@   requires[C14,C06] @never-waits-for-own-tag t != ghost("$curTag", tag)
+//@   modifies $recv
+//@   ensures[C14] @idle-returns-at-once !old(has(cs.tags, t)) ==> ghost("$recv") == old(ghost("$recv"))
+//@   ensures[C14] @active-waits-for-close old(has(cs.tags, t)) ==> ghost("$recv") == old(ghost("$recv")) + 1
+//@   ensures[C15,C16] samelocks()
+//@   nopanic
+
+//@ func (*tflush).handle
+//@   use handlerBase dirOpRows
+//@   ensures[C06] @reply-type typeis(result, *rflush)
+//@   ensures[C14] @rflush-only-after-wait ncalls("(*connState).WaitTag") == 1
+//@   at (*connState).WaitTag requires[C14] @waits-for-the-flushed-tag arg0 == old(t.OldTag)
+//@   ensures[C14,C04] @no-side-effect nocalls()
+
+//@ ghostvar $ret.tag tag
+//@ ghostvar $ret.QID QID
+//@ ghostvar $ret.File File
+//@ ghostvar $ret.n int
+//@ ghostvar $lasterr error
+//@ ghostvar $curTag tag
+
+// ---- transport as seen by the server loop (bodies: see the codec section) ----------
+// recv/send touch message objects, byte buffers and nothing of the session.
+//@ group transportFrame
+//@   modifies implsof(message), arrays(byte), arrays(string), arrays(QID), arrays(Dirent), type:buffer, $ret.tag, $sent, $consumed
+
+//@ func recv
+//@   abstract
+//@   use transportFrame
+//@   ghost set $ret.tag:tag = result0
+//@   ensures[C02,C06] @message-iff-no-error (result2 == nil) == (result1 != nil)
+//@ func send
+//@   abstract
+//@   use transportFrame
+
+//@ func (*registry).put
+//@   abstract
+//@   use transportFrame
+
+//@ func (*connState).handleRequest
+//@   use handlerBase
+//@   requires[C06] cs.server != nil
+//@   at send requires[C06] @frames-are-contiguous held(cs.sendMu) == -1
+//@   at send requires[C06] @reply-carries-request-tag arg2 == ghost("$ret.tag", tag)
+//@   at send requires[C14] @tag-cleared-before-reply ncalls("(*connState).handle") == ncalls("(*connState).ClearTag")
+//@   at (*connState).handle requires[C06] @not-holding-receive-token held(cs.recvMu) == 0
+//@   at (*connState).handle requires[C06] @a-receiver-exists-first ghost("$spawned") > old(ghost("$spawned")) || cs.recvIdle != 0
+//@   at (*connState).handle requires[C06] @tag-registered-first ncalls("(*connState).StartTag") == 1
+//@   at (*connState).ClearTag requires[C14] @only-after-handler-returned ncalls("(*connState).handle") == 1 && arg0 == ghost("$ret.tag", tag)
+//@   at (*connState).StartTag requires[C06] @starts-the-request-tag arg0 == ghost("$ret.tag", tag)
+//@   ensures[C06] @exactly-one-reply-per-handled-request ncalls("(*connState).handle") == 1 ==> ncalls("send") == 1
+//@   ensures[C06] @never-two-replies ncalls("send") <= 1 && ncalls("(*connState).handle") <= 1
+//@   ensures[C06] @no-unsolicited-reply ncalls("send") == 1 ==> ncalls("recv") == 1
+//@   ensures[C02] @connection-error-ends-serving !result ==> ncalls("send") == 0 && ncalls("(*connState).handle") == 0
+//@   ensures[C05] @request-group-balanced ghost("$wg") == old(ghost("$wg")) + (ghost("$spawned") - old(ghost("$spawned")))
+
+// =============================================================================
+// C12: version and msize negotiation (server side)
+// =============================================================================
+// googleVersion(n) is the string "9P2000.L.Google." followed by n in decimal.
+// Assumed facts about it (fmt, strings, strconv are not verified) are attached
+// to the call sites below and listed in the evidence.
+//@ declare googleVersion(n uint32) string
+//@ ghostvar $pv.base baseVersion
+//@ ghostvar $pv.num uint32
+//@ ghostvar $pv.ok bool
+
+//@ func versionString
+//@   at fmt.Sprintf assume ret0 == googleVersion(version)
+//@   ensures[C12] @plain-for-zero version == 0 ==> result == string(baseVersion)
+//@   ensures[C12] @google-n-otherwise version != 0 ==> result == googleVersion(version)
+//@   nopanic
+
+//@ func parseVersion
+//@   at strings.Split assume forall(n, uint32, arg0 == googleVersion(n) ==> len(ret0) == 4 && ret0[0] == "9P2000" && ret0[1] == "L" && ret0[2] == "Google" && len(ret0[3]) > 0 && ret0[3] == decimal(n))
+//@   at strconv.ParseUint assume forall(n, uint32, arg0 == decimal(n) && arg1 == 10 && arg2 == 32 ==> ret1 == nil && ret0 == uint64(n))
+//@   requires[C12] @google-strings-are-not-the-plain-ones forall(n, uint32, googleVersion(n) != "9P2000.L" && googleVersion(n) != "9P2000.u" && googleVersion(n) != "9P2000")
+//@   ghost set $pv.base:baseVersion = result0
+//@   ghost set $pv.num:uint32 = result1
+//@   ghost set $pv.ok:bool = result2
+//@   ensures[C12] @plain-L-is-version-0 str == "9P2000.L" ==> result0 == version9P2000L && result1 == 0 && result2
+//@   ensures[C12] @canonical-google-parses-back forall(n, uint32, str == googleVersion(n) ==> result0 == version9P2000L && result1 == n && result2)
+//@   ensures[C12] @known-base-only result2 ==> result0 == version9P2000L || result0 == version9P2000U || result0 == version9P2000
+//@   ensures[C12] @other-dialects-keep-their-base str == "9P2000.u" ==> result0 == version9P2000U
+//@   ensures[C12] @other-dialects-keep-their-base2 str == "9P2000" ==> result0 == version9P2000
+//@   safety[C12]
+//@   nopanic
+//@ declare decimal(n uint32) string
+
+//@ func (*tversion).handle
+//@   use handlerBase dirOpRows
+//@   requires[C12] forall(n, uint32, googleVersion(n) != "9P2000.L" && googleVersion(n) != "9P2000.u" && googleVersion(n) != "9P2000")
+//@   ensures[C12,C06] @always-rversion typeis(result, *rversion)
+//@   ensures[C12] @zero-msize-unknown old(t.MSize) == 0 ==> unbox(result, *rversion).Version == "unknown" && unbox(result, *rversion).MSize == 0 && cs.messageSize == old(cs.messageSize) && cs.version == old(cs.version)
+//@   ensures[C12] @unparsable-unknown old(t.MSize) != 0 && !ghost("$pv.ok", bool) ==> unbox(result, *rversion).Version == "unknown" && unbox(result, *rversion).MSize == 0 && cs.messageSize == old(cs.messageSize) && cs.version == old(cs.version)
+//@   ensures[C12] @other-dialect-unknown old(t.MSize) != 0 && ghost("$pv.ok", bool) && ghost("$pv.base", baseVersion) != version9P2000L ==> unbox(result, *rversion).Version == "unknown" && unbox(result, *rversion).MSize == 0 && cs.messageSize == old(cs.messageSize) && cs.version == old(cs.version)
+//@   ensures[C12,C13] @msize-is-min-of-requested-and-4MiB old(t.MSize) != 0 && ghost("$pv.ok", bool) && ghost("$pv.base", baseVersion) == version9P2000L ==> unbox(result, *rversion).MSize == min(old(t.MSize), maximumLength) && cs.messageSize == min(old(t.MSize), maximumLength)
+//@   ensures[C12] @version-is-min-of-requested-and-7 old(t.MSize) != 0 && ghost("$pv.ok", bool) && ghost("$pv.base", baseVersion) == version9P2000L ==> cs.version == min(ghost("$pv.num", uint32), 7) && unbox(result, *rversion).Version == ite(cs.version == 0, "9P2000.L", googleVersion(cs.version))
+//@   at parseVersion requires[C12] @parses-the-requested-string arg0 == old(t.Version)
+//@   ensures[C12,C04] @no-backend-call nocalls()
